@@ -74,9 +74,14 @@ class RateLimiter(BaseRateLimiter):
     def evaluate_rules(self, rules, timestamps):
         now = self._timestamp()
         if timestamps:
-            if (now - timestamps[0]) > max(rules)[0]:
+            max_interval = max(rules)[0]
+            if (now - timestamps[0]) > max_interval:
                 timestamps.clear()
             else:
+                # forget admissions no rule can count any more, so the
+                # per-address state stays bounded by the configured rates
+                while (now - timestamps[-1]) > max_interval:
+                    timestamps.pop()
                 for interval, freq in rules:
                     count = 0
                     for ts in timestamps:
